@@ -168,3 +168,128 @@ func failOnly(s *ssa.BasicBlock) bool {
 	}
 	return n > 0
 }
+
+// C07.R8: nothing nil is published into the schema. Every value stored into Schema.Types / Schema.Directives and
+// every definition handed to a Schema method that appends it to one of the schema's relations (PossibleTypes,
+// Implements) is non-nil at the call: it is not a map lookup, search result or nullable field, or a nil test of the
+// same value dominates the registration — for the maps and relations the loader itself reads while loading (Types,
+// Directives, and PossibleTypes through isCovariant): their readers range over them and dereference each element without
+// a test, before the check that rejects the undefined name has run. A relation nobody reads while loading (Implements)
+// may transiently hold nil: C07.R2 shows the undefined name is rejected before the schema is returned.
+func c07NothingNil(c *Ctx, r *RuleResult) {
+	p := c.P
+	e := newEffects(p)
+	scope := validationScope(p, e)
+	na := newNilAnalysis(p, scope)
+	na.inLoader = true
+	schemaT := p.LookupType("ast", "Schema")
+	if schemaT == nil {
+		r.AnchorLost("ast.Schema")
+		return
+	}
+	// methods of Schema that append a parameter to a relation
+	type sinkFn struct {
+		param int
+		field string
+	}
+	sinks := map[*ssa.Function]sinkFn{}
+	for _, fn := range p.FuncsIn("ast") {
+		if fn.Signature.Recv() == nil || namedOf(fn.Signature.Recv().Type()) != schemaT {
+			continue
+		}
+		allInstrs(fn, func(in ssa.Instruction) {
+			mu, ok := in.(*ssa.MapUpdate)
+			if !ok {
+				return
+			}
+			_, f, ok := fieldLoadOf(mu.Map)
+			if !ok {
+				return
+			}
+			call, ok := stripChange(mu.Value).(*ssa.Call)
+			if !ok {
+				return
+			}
+			if b, isB := call.Call.Value.(*ssa.Builtin); !isB || b.Name() != "append" {
+				return
+			}
+			for _, el := range variadicElems(call.Call.Args[1]) {
+				if prm, ok := stripChange(el).(*ssa.Parameter); ok {
+					sinks[fn] = sinkFn{paramIndex(fn, prm), f}
+				}
+			}
+		})
+	}
+	if len(sinks) == 0 {
+		r.AnchorLost("methods of ast.Schema that append to PossibleTypes / Implements")
+		return
+	}
+	// which relations the loader itself reads before it has rejected undefined names
+	readInLoader := map[string][]string{}
+	if vsd := p.Func("validator.ValidateSchemaDocument"); vsd != nil {
+		for fn := range p.reachableFrom([]*ssa.Function{vsd}, nil) {
+			if _, isSink := sinks[fn]; isSink || !p.inModule(fn) {
+				continue
+			}
+			allInstrs(fn, func(in ssa.Instruction) {
+				if v, ok := in.(ssa.Value); ok {
+					if st, f, ok := fieldLoadOf(v); ok && st == "Schema" {
+						if _, isMap := v.Type().Underlying().(*types.Map); isMap {
+							readInLoader[f] = append(readInLoader[f], p.FuncName(fn))
+						}
+					}
+				}
+			})
+		}
+	}
+	check := func(in ssa.Instruction, v ssa.Value, what, field string) {
+		fn := in.Parent()
+		site := what + " at " + p.Pos(in.Pos())
+		why := na.possiblyNil(v, map[ssa.Value]bool{})
+		if why == "" {
+			r.OK(site, "the value cannot be nil (a parsed definition, a fresh node, an element of a parsed list)")
+			return
+		}
+		if len(readInLoader[field]) == 0 {
+			r.OK(site, "possibly nil for an undefined name, but Schema."+field+" is not read while loading, and a schema with an undefined name is rejected before it is returned (C07.R2)")
+			return
+		}
+		st := na.stateAt(in)
+		bad := false
+		for _, d := range st {
+			if na.evalNil(v, d) != 1 {
+				bad = true
+			}
+		}
+		if bad {
+			r.Fail(in.Pos(), p.FuncName(fn), what+" of a possibly nil definition", why+" and the result is registered without a nil test: the relation then holds a nil entry, which its readers (isCovariant, the overlap and possible-type rules) dereference — an SDL naming an undefined type panics instead of being rejected")
+		} else {
+			r.OK(site, "nil test on every path")
+		}
+	}
+	n := 0
+	for fn := range scope {
+		if pk := p.PkgOf(fn); pk == nil || !strings.HasSuffix(pk.PkgPath, "/validator") {
+			continue
+		}
+		allInstrs(fn, func(in ssa.Instruction) {
+			switch x := in.(type) {
+			case *ssa.MapUpdate:
+				if _, f, ok := fieldLoadOf(x.Map); ok && (f == "Types" || f == "Directives") && isPointerLike(x.Value.Type()) {
+					n++
+					check(in, x.Value, "Schema."+f+"[name] = definition", f)
+				}
+			case ssa.CallInstruction:
+				if g := x.Common().StaticCallee(); g != nil {
+					if sk, ok := sinks[g]; ok && sk.param < len(x.Common().Args) {
+						n++
+						check(in, x.Common().Args[sk.param], g.Name()+" (Schema."+sk.field+")", sk.field)
+					}
+				}
+			}
+		})
+	}
+	if n == 0 {
+		r.AnchorLost("registrations into the schema's maps and relations in package validator")
+	}
+}
